@@ -19,7 +19,8 @@ RULE = ("configurations ordered by number of deviations from 'category flags on 
         "tty x default-flags-tui; each CI variable (+PYCHARM_HOSTED); xdist -n 2 / -n 0; xfail marks; usage errors. Program: one "
         "pending change per category + an outsourced value + an unreferenced persisted external + a referenced one (thorough: "
         "3 more programs). states = distinct resulting directory states, transitions = sessions, validated = sessions whose "
-        "result equals both the model prediction and the CLI-only reference session")
+        "result equals both the model prediction and the CLI-only reference session"
+        "; xfail marks also stacked and inherited + own; CI variables with the values CI systems set")
 ASSUMPTIONS = ["tty is emulated with FORCE_COLOR (rich Console.is_terminal)", "-new files of outsource() are not persisted externals and are ignored in the comparison",
                "pytest 9.1.1 / CPython 3.12 defaults: default-flags=['report'], default-flags-tui=['create','review']"]
 TASK_TIMEOUT = 900
